@@ -52,19 +52,21 @@ func knownPlans() []evid.Known[Plan] {
 	opt3 := opt
 	opt3.DisableAutoCompaction = false
 	opt3.L0Compaction = 1
-	opt3.MemTableSize = 256 << 10
-	big := func(tag string, keys ...string) []dbm.Op {
+	opt3.MemTableSize = 1 << 20
+	big := func(tag string, sfx ...int) []dbm.Op {
 		var ops []dbm.Op
-		for i, k := range keys {
-			ops = append(ops, dbm.Op{K: "set", A: k, V: fmt.Sprintf("%s%d", tag, i), VLen: 9000})
+		for _, pfx := range dbm.Prefixes {
+			for _, n := range sfx {
+				ops = append(ops, dbm.Op{K: "set", A: mkKey(pfx, n), V: fmt.Sprintf("%s%d", tag, len(ops)), VLen: 9000})
+			}
 		}
 		return ops
 	}
 	steps3 := []Step{
-		{K: "write", Ops: big("x", "a", "a@3", "aa", "ab@2", "b", "ba@1", "c", "d", "e@4", "f"), Sync: true},
+		{K: "write", Ops: big("x", 0, 2, 4), Sync: true},
 		{K: "flush"},
 		{K: "wait"},
-		{K: "write", Ops: big("y", "a@1", "aa@2", "ab", "b@5", "bb", "ca", "d@2", "e", "f@1"), Sync: true},
+		{K: "write", Ops: big("y", 1, 3, 5), Sync: true},
 		{K: "restart"},
 		{K: "get", A: "a"},
 		{K: "faultsoff"},
